@@ -85,9 +85,8 @@ def check_axis_action(run, S, name, spec, kw):
     half = spec[0] == 'axis_action_half'
     if half:
         sh, ch = specs.sincos(t * HALF)
-        shn, chn = [A.CTX.names[list(x.atoms())[0]] for x in (sh, ch)]
         s, c = sh * ch * 2, ch * ch - sh * sh
-        rels = [specs.unit_vec_hyp('a0'), (shn, 2, ONE - ch * ch)]
+        rels = [specs.unit_vec_hyp('a0')]      # sin^2 + cos^2 = 1 is a defining relation of the trig atoms (algebra.sincos)
         rule = 'K3: action of the half-angle quaternion = Rodrigues formula with sin t = 2 sin(t/2)cos(t/2), cos t = cos^2 - sin^2, |a| = 1'
     else:
         s, c = specs.sincos(t)
